@@ -29,11 +29,12 @@ MIN_EVAL = {
 }
 TOL = 2e-8
 POLE_MARGIN = 1e-6
+BAND_EXCLUDED = False
 
 
 def cases(tier, seed):
     rng = np.random.default_rng([seed, 1313])
-    n_single, n_mesh = (330, 30) if tier == "quick" else (40000, 2500)
+    n_single, n_mesh = (442, 30) if tier == "quick" else (51000, 2500)
     for i in range(n_single):
         yield {"kind": "single", "k": int(rng.integers(3, 9)), "radius": float(10 ** rng.uniform(-0.3 if i % 4 else -3.0, math.log10(60))),
                "fseed": int(rng.integers(0, 10**6)), "placement": gen.FACE_PLACEMENTS[i % len(gen.FACE_PLACEMENTS)],
@@ -51,11 +52,11 @@ def true_bounds(P):
     if k == 3 and orient < 0:
         pass
     Pc = P if orient > 0 else P[::-1]
-    if not ref.is_convex_ccw(Pc, tol=1e-9):
+    if not ref.is_convex_ccw_rel(Pc, 1e-6):
         return None
     zhat = np.array([0.0, 0.0, 1.0])
     corner_pole = [i for i in range(k) if abs(P[i, 2]) == 1.0]
-    if any(1 - 1e-7 < abs(P[i, 2]) < 1.0 for i in range(k)):
+    if BAND_EXCLUDED and any(1 - 1e-7 < abs(P[i, 2]) < 1.0 for i in range(k)):
         return None  # inside the library's pole-snap band: not generated on purpose
     # pole enclosure (edge-plane signs, angular margins)
     pole = None
